@@ -648,6 +648,16 @@ MUTANTS = [
     M("O5-2-pocket-from-king", ["C05"], (TK, "RankPair::Pocket(rank) => rank_pair_run(Rank::Ace, rank, RankPair::Pocket),", "RankPair::Pocket(rank) => rank_pair_run(Rank::King, rank, RankPair::Pocket),"), base="O5-2"),
     M("I6-1-varying-high", ["C05"], (TK, "        RankPair::Suited(high, _) => RankPair::Suited(high, rank),", "        RankPair::Suited(high, _) => RankPair::Suited(rank, high),"), base="I6-1"),
     M("I6-1-weighted-half", ["C05"], (TK, "    rank_pair.into_iter().map(move |cp| (cp, probability))", "    rank_pair.into_iter().map(move |cp| (cp, probability * 0.5))"), base="I6-1"),
+    M("benign-Q3-3-variant-mask-tables", ["C13", "C08", "C09"], base="Q3-3", benign=True),
+    M("Q3-3-masks-swapped", ["C13"], (CD, "    (Rank::King, KING_MASK),\n    (Rank::Queen, QUEEN_MASK),", "    (Rank::King, QUEEN_MASK),\n    (Rank::Queen, KING_MASK),"), base="Q3-3"),
+    M("Q3-3-suit-entry-dropped-dup", ["C13"], (CD, "    (Suit::Diamond, DIAMOND_MASK),\n    (Suit::Club, CLUB_MASK),", "    (Suit::Diamond, DIAMOND_MASK),\n    (Suit::Club, DIAMOND_MASK),"), base="Q3-3"),
+    M("benign-Q4-4-flush-bit-from-deuce-code", ["C01", "C07", "C08"], base="Q4-4", benign=True),
+    M("Q4-4-from-trey", ["C01", "C07", "C08"], (MH, "u8::from(Rank::Deuce) - u8::from(rank)", "u8::from(Rank::Trey) - u8::from(rank)"), base="Q4-4"),
+    M("benign-Q2-3-combos-collected-per-arm-into-one-local", ["C05", "C12"], base="Q2-3", benign=True),
+    M("Q2-3-ofsuit-filter-eq", ["C05", "C12"], (RP, ".filter(move |&&right| right != left)", ".filter(move |&&right| right == left)"), base="Q2-3"),
+    M("Q2-3-pocket-from-i", ["C05", "C12"], (RP, "SUITS[i + 1..].iter().map(move |&right| {", "SUITS[i..].iter().map(move |&right| {"), base="Q2-3"),
+    M("benign-Q5-4-listed-flatten-map", ["C05", "C09"], base="Q5-4", benign=True),
+    M("Q5-4-tail-weight-one", ["C05"], (TK, "            .map(|cp| (cp, probability))\n            .collect::<Vec<(CardPair, f32)>>()", "            .map(|cp| (cp, 1.0))\n            .collect::<Vec<(CardPair, f32)>>()"), base="Q5-4"),
     M("benign-F3-3-computed-flush-weight", ["C01", "C07", "C08"], base="F3-3", benign=True),
     M("F3-3-unreversed", ["C01", "C07"], (MH, "1 << (12 - u8::from(card.rank()))", "1 << u8::from(card.rank())"), base="F3-3"),
     M("F3-3-off-by-one", ["C01", "C07"], (MH, "1 << (12 - u8::from(card.rank()))", "1 << (13 - u8::from(card.rank()))"), base="F3-3"),
